@@ -337,6 +337,31 @@ def rule_form_cases(rng, n):
     return out
 
 
+def allof_stream(rng, n):
+    """allOf children without required own keys whose parents are also used directly; nullable unions reached through references"""
+    out = []
+    for _ in range(n):
+        env = {"@B": ("obj", [("b", False, ("int", None, None, False))], None, []), "@C": ("obj", [("c", False, ("str", False)), ("c2", True, ("bool",))], None, []),
+               "@I": ("int", 0, None, False), "@S": ("str", False)}
+        own = rng.choice([[], [("o", True, ("bool",))], [("o", False, ("bool",))]])
+        env["@K"] = ("obj", own, None, rng.choice([["@B", "@C"], ["@C", "@B"], ["@B"]]))
+        env["@T"] = ("ref", ["@I", "@S"], True)
+        env["@U"] = ("ref", ["@T"], False)
+        names = ["@B", "@C", "@I", "@S", "@K", "@T", "@U"]
+        root = ("obj", [("combined", False, ("ref", ["@K"], False)), ("plain", rng.random() < 0.3, ("ref", [rng.choice(["@B", "@C"])], False)),
+                        ("u", True, ("ref", [rng.choice(["@T", "@U"])], False)), ("arr", True, ("arr", [("ref", [rng.choice(["@T", "@U"]), "@B"], False)]))], None, [])
+        docs = []
+        for _ in range(4):
+            d = inhabitant(rng, env, root)
+            if d is not None:
+                docs.append(d)
+                docs.append(J.mutate_doc(rng, d))
+        docs.append(("o", [("combined", ("o", [("b", ("i", "1")), ("c", ("s", '"x"'))] + [(k, ("b", "true")) for k, _, _ in own])), ("plain", ("o", [("b", ("i", "2"))])),
+                           ("u", ("n", "null")), ("arr", ("a", [("n", "null"), ("i", "3")]))]))
+        out.append((names, env, root, docs))
+    return out
+
+
 def run(ctx):
     st = vc.prepare(ctx, need_model=False)
     if not st["impl"]:
@@ -380,26 +405,7 @@ def run(ctx):
             xs = [rng.choice([("i", "1"), ("i", "3"), ("s", '"x"'), ("b", "true"), ("i", "-5"), ("i", "500")]) for _ in range(rng.randint(0, 4))]
             docs.append(("a", xs) if root[0] == "arr" else ("o", [("l", ("a", xs))]))
         cases.append((["@A", "@B", "@S"], env, root, docs))
-    # allOf children without required own keys whose parents are also used directly; nullable unions reached through references
-    for _ in range(200 if quick else 3000):
-        env = {"@B": ("obj", [("b", False, ("int", None, None, False))], None, []), "@C": ("obj", [("c", False, ("str", False)), ("c2", True, ("bool",))], None, []),
-               "@I": ("int", 0, None, False), "@S": ("str", False)}
-        own = rng.choice([[], [("o", True, ("bool",))], [("o", False, ("bool",))]])
-        env["@K"] = ("obj", own, None, rng.choice([["@B", "@C"], ["@C", "@B"], ["@B"]]))
-        env["@T"] = ("ref", ["@I", "@S"], True)
-        env["@U"] = ("ref", ["@T"], False)
-        names = ["@B", "@C", "@I", "@S", "@K", "@T", "@U"]
-        root = ("obj", [("combined", False, ("ref", ["@K"], False)), ("plain", rng.random() < 0.3, ("ref", [rng.choice(["@B", "@C"])], False)),
-                        ("u", True, ("ref", [rng.choice(["@T", "@U"])], False)), ("arr", True, ("arr", [("ref", [rng.choice(["@T", "@U"]), "@B"], False)]))], None, [])
-        docs = []
-        for _ in range(4):
-            d = inhabitant(rng, env, root)
-            if d is not None:
-                docs.append(d)
-                docs.append(J.mutate_doc(rng, d))
-        docs.append(("o", [("combined", ("o", [("b", ("i", "1")), ("c", ("s", '"x"'))] + [(k, ("b", "true")) for k, _, _ in own])), ("plain", ("o", [("b", ("i", "2"))])),
-                           ("u", ("n", "null")), ("arr", ("a", [("n", "null"), ("i", "3")]))]))
-        cases.append((names, env, root, docs))
+    cases += allof_stream(rng, 200 if quick else 3000)
     # additionalProperties: several unnamed keys in one object, valid and invalid values in every order (each unnamed key is decided on its own)
     for _ in range(300 if quick else 5000):
         env = {"@Id": ("obj", [("id", False, ("int", None, None, False))], None, []), "@N": ("int", 0, 9, False), "@S": ("str", False),
